@@ -53,6 +53,11 @@ def expr(node, opts=None):
             return {'e': 'const', 'v': 1 if v else 0}
         if isinstance(v, int) and abs(v) < 1000:
             return {'e': 'const', 'v': v}
+        if isinstance(v, str):
+            import re as _re
+            m = _re.fullmatch(r'\$var\[(\w+)\]', v)
+            if m:
+                return {'e': 'var', 'c': m.group(1)}
         raise Unsupported('constant %r' % (v,))
     if k == 'NullConstant':
         return {'e': 'const', 'v': NULL}
@@ -239,13 +244,30 @@ def _inside_integration(q):
     return q
 
 
-def plan_steps(plan):
-    """-> list of {'kind', 'defdb', 'q'} in plan order; raises Unsupported for steps outside the model."""
+def _fetch_sub(s):
+    if _name(s) != 'FetchDataframeStep' or getattr(s, 'raw_query', None):
+        raise Unsupported('container sub-step ' + _name(s))
+    return {'defdb': str(s.integration), 'q': _inside_integration(query(s.query))}
+
+
+def plan_steps(plan, upto=None):
+    """-> list of {'kind', 'defdb', 'q'} in plan order; raises Unsupported for steps outside the model.
+    upto: stop before the first step of that class name."""
     out = []
     for i, s in enumerate(plan.steps):
         k = _name(s)
+        if upto and k == upto:
+            break
         if getattr(s, 'step_num', i) != i:
             raise Unsupported('step numbering')
+        if k == 'MultipleSteps':
+            out.append({'kind': 'multiple', 'defdb': '', 'subs': [_fetch_sub(x) for x in s.steps]})
+            continue
+        if k == 'MapReduceStep':
+            inner = s.step
+            subs = [_fetch_sub(x) for x in inner.steps] if _name(inner) == 'MultipleSteps' else [_fetch_sub(inner)]
+            out.append({'kind': 'mapreduce', 'defdb': '', 'values': step_num(s.values), 'subs': subs})
+            continue
         if k == 'FetchDataframeStep':
             if getattr(s, 'raw_query', None):
                 raise Unsupported('raw query')
